@@ -130,7 +130,8 @@ class SupvisorsOptions:
         self.event_link = self._get_value(config, 'event_link', EventLinks.NONE, self.to_event_link)
         self.event_port = self._get_value(config, 'event_port', 0, self.to_port_num)
         self.auto_fence = self._get_value(config, 'auto_fence', False, boolean)
-        self.synchro_options = self._get_value(config, 'synchro_options', self.SYNCHRO_DEFAULT_OPTIONS,
+        # NOTE: use a copy of the default list because check_options may remove elements from it
+        self.synchro_options = self._get_value(config, 'synchro_options', list(self.SYNCHRO_DEFAULT_OPTIONS),
                                                self.to_synchro_options)
         self.synchro_timeout = self._get_value(config, 'synchro_timeout', self.SYNCHRO_TIMEOUT_MIN, self.to_timeout)
         self.inactivity_ticks = self._get_value(config, 'inactivity_ticks', self.INACTIVITY_TICKS_MIN, self.to_ticks)
